@@ -18,6 +18,13 @@ def mem(seq, x):
     return engine.CURRENT.seq_mem(seq, x)
 
 
+def mem_index(seq, x):
+    """a position of x in the sequence (meaningful when mem(seq, x))."""
+    from . import engine
+
+    return engine.CURRENT.seq_mem_index(seq, x)
+
+
 def cdiv(a, b):
     """ceil(a / b) for b > 0"""
     return -((-a) / b)
